@@ -154,14 +154,16 @@ PROPS = {
     ),
     'C06': dict(
         judge='C06', judge_module='Judge.J06', judge_fn='judge_C06',
-        cases=dict(quick=9000, thorough=60000),
-        rule='the C01 case stream (exhaustive 2-variable clause lists, then random / structured CNF) with certificate generation '
-             'on (channel) x learned-clause limit default/4/20; every emitted line is replayed in order by the verified checker '
-             'rup_check (coq/Model/Rup.v, C06_checker), Unsat answers must contain or UP-derive the empty clause, verdict and model '
-             'are judged as in C01; non-trivial = at least one certificate line was emitted',
+        cases=dict(quick=3000, thorough=60000),
+        rule='conflict-rich CNF with certificate generation on (channel) x learned-clause limit default/4/20: 3-SAT near the '
+             'threshold over 6..18 and 15..24 variables, 4% over 30..50 variables (there an Unsat answer is justified by its '
+             'certificate alone), pigeonhole, parity chains, mixed CNF; 1% of the runs read the certificate slowly (120 ms pauses); '
+             'every emitted line is replayed in order by the verified checker rup_check (coq/Model/Rup.v, C06_checker), Unsat '
+             'answers must contain or UP-derive the empty clause, verdict and model are judged as in C01; non-trivial = at '
+             'least one certificate line was emitted',
         nontrivial=lambda sx, v, meta: v[0] == 'ok' and len(v[2]) > 1 and int(v[2][-1]) > 0,
         stats=_verdict_stats,
-        assumptions=['the certificate channel is drained by the harness; stdout sink is exercised in C19'],
+        assumptions=['the stdout sink is exercised in C19'],
     ),
     'C07': dict(
         judge='C07', judge_module='Judge.J06', judge_fn='judge_C07',
